@@ -86,7 +86,7 @@ fn reference_clients(content: &str) -> Option<Vec<(String, String)>> {
 fn credentials_part(rep: &Arc<Reporter>, args: &Args, hosts: &TlsHostsSettings) {
     let dir = env::work_dir(&args.root, "c13");
     let mut r = Rng::derive(args.seed, 0xc13, 0);
-    let strings = pool(&mut r, args.qt(150, 6000));
+    let strings = pool(&mut r, args.qt(500, 6000));
     let mut n = 0u64;
     for (i, s) in strings.iter().enumerate() {
         for (form, spelled) in spellings(s) {
